@@ -1,4 +1,489 @@
-/- Model for area `mempool` (stub). -/
+/-
+  Model of the app-side mempool of astria-sequencer
+  (`crates/astria-sequencer/src/mempool/{mod.rs, transactions_container.rs,
+  recent_execution_results.rs}`).
+
+  Representation.  The Rust keeps two containers `HashMap<address, BTreeMap<nonce, tx>>`
+  (pending, parked).  The model keeps each container as ONE list of transactions ordered by the
+  key `(account, nonce)`; the per-account `BTreeMap` is the sub-list `acctQ a q` (already in nonce
+  order).  Accounts whose map is empty are removed by the Rust and simply have an empty sub-list
+  here.  Balances are total functions `asset → amount` (an asset missing from the Rust
+  `HashMap` behaves exactly like a zero balance in every function modelled here: a non-zero cost
+  fails against it, a zero cost is skipped).  A transaction's costs are an association list
+  `asset ↦ amount`, walked entry by entry like the Rust `HashMap`.
+  Time is a natural number (milliseconds of the paused tokio clock the harness drives).
+  Nonces are unbounded naturals: the `u32::MAX` corner (`checked_add(1).expect(..)` in `insert`,
+  `saturating_add` in `find_demotables`/`pending_account_nonce`) is not modelled.
+
+  Fields of `State` marked *ghost* do not exist in the Rust; they record history that the
+  theorems talk about and never influence a non-ghost field.
+-/
 namespace Astria.Mempool
+
+/-- `RemovalReason` (the `String` of `FailedExecution` and the `ExecTxResult` are abstracted to a
+    tag / result code). -/
+inductive Reason where
+  | expired
+  | nonceStale
+  | lowerNonce
+  | failedExec (tag : Nat)
+  | internal
+  | included (height : Nat) (code : Nat)
+  deriving DecidableEq, Repr, Inhabited
+
+/-- `InsertionError`. -/
+inductive InsErr where
+  | alreadyPresent | nonceTooLow | nonceTaken | nonceGap | accountSizeLimit
+  | balanceTooLow | parkedSizeLimit
+  deriving DecidableEq, Repr, Inhabited
+
+/-- Balances: asset ↦ amount. -/
+def Bal := Nat → Nat
+
+/-- `TimemarkedTransaction`: the checked transaction (id, signer, nonce, group and what
+    `total_costs` needs to re-cost it), the time it was first seen and its current costs. -/
+structure Tx where
+  id : Nat
+  acct : Nat
+  nonce : Nat
+  group : Nat                         -- `Group as u8`: 1 UnbundleableSudo … 4 BundleableGeneral
+  seen : Nat := 0
+  costs : List (Nat × Nat) := []      -- asset ↦ cost
+  kind : Nat := 0                     -- which fee table entry its (single) action uses
+  feeAsset : Option Nat := none
+  xfer : Option (Nat × Nat) := none   -- `asset_and_amount_to_transfer`
+  deriving DecidableEq, Repr, Inhabited
+
+structure Cfg where
+  parkedMax : Nat                     -- `parked_max_tx_count`
+  perAcct : Nat := 15                 -- `MAX_PARKED_TXS_PER_ACCOUNT`
+  ttl : Nat := 240000                 -- `TX_TTL` (ms)
+  resultsMax : Nat := 100             -- `execution_results_cache_size`
+  retention : Nat := 60000            -- `RETENTION_DURATION` (ms)
+  cacheMax : Nat := 50000             -- `REMOVAL_CACHE_SIZE`
+  /-- `false` = the code as it is. `true` = the proposed fix: a promotion/demotion that fails
+      during maintenance records `RemovalReason::InternalError` like `insert` does. -/
+  reportFailedMoves : Bool := false
+  deriving DecidableEq, Repr, Inhabited
+
+structure State where
+  cfg : Cfg
+  pend : List Tx := []                -- `pending`, ordered by (account, nonce)
+  park : List Tx := []                -- `parked`,  ordered by (account, nonce)
+  contained : List Nat := []          -- `contained_txs`
+  cache : List (Nat × Reason) := []   -- `comet_bft_removal_cache.cache`
+  cacheQ : List Nat := []             -- `comet_bft_removal_cache.remove_queue` (front = oldest)
+  res : List (Nat × Nat × Nat) := []  -- `recent_execution_results.execution_results`: id ↦ (height, code)
+  resQ : List (Nat × Nat) := []       -- `…timestamped_ids` (front = oldest): (id, time)
+  now : Nat := 0
+  -- ghost
+  shown : Nat → Nat := fun _ => 0     -- account ↦ nonce last shown for it (insert / maintenance)
+  vbal : Nat → Bal := fun _ _ => 0    -- account ↦ balances shown when its ready queue was last validated
+  accepted : List Nat := []           -- ids ever accepted by `insert`
+  acked : List Nat := []              -- ids the caller took out of the removal cache since they were last accepted
+  dropped : List Nat := []            -- ids dropped with no reason (failed move in maintenance)
+  evicted : List Nat := []            -- ids pushed out of the removal cache by its size bound
+
+/-! ### keys, ordered insertion, per-account view -/
+
+/-- Strict order of the container key `(account, nonce)`. -/
+def klt (x y : Tx) : Bool := x.acct < y.acct || (x.acct == y.acct && x.nonce < y.nonce)
+
+/-- `BTreeMap::insert` into the flat ordered list (the key is known to be vacant). -/
+def oins (t : Tx) : List Tx → List Tx
+  | [] => [t]
+  | x :: xs => if klt t x then t :: x :: xs else x :: oins t xs
+
+/-- The `BTreeMap<nonce, tx>` of account `a`. -/
+def acctQ (a : Nat) (q : List Tx) : List Tx := q.filter (fun t => t.acct == a)
+
+/-! ### costs -/
+
+/-- `TimemarkedTransaction::deduct_costs`: entry by entry; zero costs are skipped; a cost that
+    exceeds the (possibly missing = zero) balance is an error. -/
+def deductE : List (Nat × Nat) → Bal → Option Bal
+  | [], b => some b
+  | (k, v) :: r, b =>
+    if v = 0 then deductE r b
+    else if b k < v then none
+    else deductE r (fun j => if j = k then b k - v else b j)
+
+/-- `try_for_each(|ttx| ttx.deduct_costs(..))` over a sequence of transactions. -/
+def deductAll : List Tx → Bal → Option Bal
+  | [], b => some b
+  | t :: r, b =>
+    match deductE t.costs b with
+    | none => none
+    | some b' => deductAll r b'
+
+/-- Inner loop of `subtract_contained_costs` for one transaction (saturating). -/
+def subE : List (Nat × Nat) → Bal → Bal
+  | [], b => b
+  | (k, v) :: r, b => subE r (fun j => if j = k then b k - v else b j)
+
+/-- `PendingTransactionsForAccount::subtract_contained_costs`. -/
+def remain : List Tx → Bal → Bal
+  | [], b => b
+  | t :: r, b => remain r (subE t.costs b)
+
+/-! ### `TransactionsForAccount::add` / `TransactionsContainer::add` -/
+
+/-- `PendingTransactionsForAccount::is_sequential_nonce_precondition_met`. -/
+def seqOk (v : List Tx) (t : Tx) (cur : Nat) : Bool :=
+  if t.nonce = 0 then cur == 0
+  else v.any (fun x => x.nonce == t.nonce - 1) || t.nonce == cur
+
+/-- `PendingTransactions::add` (no size limits). -/
+def pendAdd (q : List Tx) (t : Tx) (cur : Nat) (bal : Bal) : Except InsErr (List Tx) :=
+  let v := acctQ t.acct q
+  if t.nonce < cur then .error .nonceTooLow
+  else
+    match v.find? (fun x => x.nonce == t.nonce) with
+    | some e => .error (if e.id = t.id then .alreadyPresent else .nonceTaken)
+    | none =>
+      if !(seqOk v t cur) then .error .nonceGap
+      else if !(deductAll (v ++ [t]) bal).isSome then .error .balanceTooLow
+      else .ok (oins t q)
+
+/-- `ParkedTransactions::add`: total limit, per-account limit, stale nonce, vacant nonce. -/
+def parkAdd (cfg : Cfg) (q : List Tx) (t : Tx) (cur : Nat) : Except InsErr (List Tx) :=
+  if q.length ≥ cfg.parkedMax then .error .parkedSizeLimit
+  else
+    let v := acctQ t.acct q
+    if v.length ≥ cfg.perAcct then .error .accountSizeLimit
+    else if t.nonce < cur then .error .nonceTooLow
+    else
+      match v.find? (fun x => x.nonce == t.nonce) with
+      | some e => .error (if e.id = t.id then .alreadyPresent else .nonceTaken)
+      | none => .ok (oins t q)
+
+/-! ### promotion / demotion -/
+
+/-- The loop of `ParkedTransactionsForAccount::find_promotables`: returns `split_at`. -/
+def promoSplit : List Tx → Nat → Bal → Nat → Nat
+  | [], _, _, s => s
+  | t :: r, target, b, s =>
+    if t.nonce ≠ target then s
+    else
+      match deductE t.costs b with
+      | none => s
+      | some b' => promoSplit r (target + 1) b' (target + 1)
+
+/-- `ParkedTransactions::find_promotables`: (promoted in nonce order, remaining container). -/
+def findPromotables (park : List Tx) (a target : Nat) (avail : Bal) : List Tx × List Tx :=
+  let split := promoSplit (acctQ a park) target avail 0
+  ((acctQ a park).filter (fun t => t.nonce < split),
+   park.filter (fun t => !(t.acct == a && t.nonce < split)))
+
+/-- The loop of `PendingTransactionsForAccount::find_demotables`: returns `split_at`. -/
+def demoSplit : List Tx → Bal → Nat → Nat
+  | [], _, s => s
+  | t :: r, b, s =>
+    match deductE t.costs b with
+    | none => s
+    | some b' => demoSplit r b' (t.nonce + 1)
+
+/-- `PendingTransactions::find_demotables`: (demoted in nonce order, remaining container). -/
+def findDemotables (pend : List Tx) (a : Nat) (bal : Bal) : List Tx × List Tx :=
+  let split := demoSplit (acctQ a pend) bal 0
+  ((acctQ a pend).filter (fun t => split ≤ t.nonce),
+   pend.filter (fun t => !(t.acct == a && split ≤ t.nonce)))
+
+/-- `PendingTransactions::pending_nonce`. -/
+def pendingNonce (pend : List Tx) (a : Nat) : Option Nat :=
+  ((acctQ a pend).getLast?).map (fun t => t.nonce + 1)
+
+/-! ### removal -/
+
+/-- `TransactionsContainer::remove`: by (account, nonce); that nonce and all higher ones. -/
+def removeFrom (q : List Tx) (a n : Nat) : Option (List Tx × List Nat) :=
+  if (acctQ a q).any (fun t => t.nonce == n) then
+    some (q.filter (fun t => !(t.acct == a && n ≤ t.nonce)),
+          ((acctQ a q).filter (fun t => n ≤ t.nonce)).map (·.id))
+  else none
+
+/-- `TransactionsContainer::clear_account`. -/
+def clearAccount (q : List Tx) (a : Nat) : List Tx × List Nat :=
+  (q.filter (fun t => !(t.acct == a)), (acctQ a q).map (·.id))
+
+/-- `RemovalCache::add`. -/
+def cacheAdd (s : State) (id : Nat) (r : Reason) : State :=
+  if s.cache.any (fun e => e.1 == id) then s
+  else
+    let s :=
+      if s.cacheQ.length = s.cfg.cacheMax then
+        match s.cacheQ with
+        | [] => s
+        | old :: rest =>
+          { s with cacheQ := rest, cache := s.cache.filter (fun e => e.1 != old),
+                   evicted := old :: s.evicted }
+      else s
+    { s with cacheQ := s.cacheQ ++ [id], cache := (id, r) :: s.cache }
+
+def untrack (s : State) (id : Nat) : State :=
+  { s with contained := s.contained.filter (fun i => i != id) }
+
+def track (s : State) (id : Nat) : State :=
+  if s.contained.contains id then s else { s with contained := id :: s.contained }
+
+/-- `MempoolInner::remove_tx_invalid` (the Rust looks the transaction up by its signer and nonce). -/
+def removeInvalid (s : State) (a n id : Nat) (reason : Reason) : State :=
+  let found : Option (List Tx × List Tx × List Nat) :=
+    match removeFrom s.pend a n with
+    | some (pend', ids) =>
+      let c := clearAccount s.park a
+      some (pend', c.1, ids ++ c.2)
+    | none =>
+      match removeFrom s.park a n with
+      | some (park', ids) => some (s.pend, park', ids)
+      | none => none
+  match found with
+  | none => s
+  | some (pend', park', ids) =>
+    let s := cacheAdd { s with pend := pend', park := park' } id reason
+    ids.foldl (fun s i => cacheAdd (untrack s i) i .lowerNonce) s
+
+/-! ### maintenance pieces -/
+
+/-- `TransactionsContainer::clean_account_stale_expired`: (container, removed with reasons). -/
+def cleanAcct (q : List Tx) (a cur : Nat) (results : List (Nat × Nat)) (height now ttl : Nat) :
+    List Tx × List (Nat × Reason) :=
+  let v := acctQ a q
+  let stale := (v.filter (fun t => t.nonce < cur)).map (fun t =>
+    (t.id, match results.lookup t.id with
+           | some code => Reason.included height code
+           | none => Reason.nonceStale))
+  let keepLive := q.filter (fun t => !(t.acct == a && t.nonce < cur))
+  match v.filter (fun t => cur ≤ t.nonce) with
+  | [] => (keepLive, stale)
+  | f :: rest =>
+    if now - f.seen > ttl then
+      (q.filter (fun t => !(t.acct == a)),
+       stale ++ (f.id, Reason.expired) :: rest.map (fun t => (t.id, Reason.lowerNonce)))
+    else (keepLive, stale)
+
+/-- Chain state handed to `run_maintenance` (what it reads of it). -/
+structure Chain where
+  nonce : Nat → Nat
+  bal : Nat → Bal
+  fee : Nat → Option Nat      -- fee table: action kind ↦ base fee, `none` = action disabled
+  allowed : Nat → Bool        -- allowed fee assets
+
+/-- `HashMap` of the fee entry merged with the transferred amount (`total_costs`). -/
+def mergeCost (fee : List (Nat × Nat)) (x : Option (Nat × Nat)) : List (Nat × Nat) :=
+  match x with
+  | none => fee
+  | some (asset, amt) =>
+    match fee with
+    | [(f, base)] => if f = asset then [(f, base + amt)] else [(f, base), (asset, amt)]
+    | _ => fee ++ [(asset, amt)]
+
+/-- `TimemarkedTransaction::recalculate_costs`: on any error the old costs stay. -/
+def recostTx (c : Chain) (t : Tx) : Tx :=
+  match c.fee t.kind with
+  | none => t
+  | some base =>
+    match t.feeAsset with
+    | none => { t with costs := mergeCost [] t.xfer }
+    | some f => if c.allowed f then { t with costs := mergeCost [(f, base)] t.xfer } else t
+
+/-- `TransactionsContainer::recost_transactions`. -/
+def recostAcct (c : Chain) (a : Nat) (q : List Tx) : List Tx :=
+  q.map (fun t => if t.acct == a then recostTx c t else t)
+
+/-- The promotion loops (`insert`: a failure records `InternalError`; `run_maintenance`: a
+    failure only un-tracks the id, unless `reportFailedMoves`). -/
+def failMove (s : State) (id : Nat) (inMaint : Bool) : State :=
+  let s := untrack s id
+  if inMaint && !s.cfg.reportFailedMoves then { s with dropped := id :: s.dropped }
+  else cacheAdd s id .internal
+
+def promoteAll (s : State) (proms : List Tx) (cur : Nat) (bal : Bal) (inMaint : Bool) : State :=
+  proms.foldl (fun s p =>
+    match pendAdd s.pend p cur bal with
+    | .ok q => { s with pend := q }
+    | .error _ => failMove s p.id inMaint) s
+
+def demoteAll (s : State) (dems : List Tx) (cur : Nat) : State :=
+  dems.foldl (fun s d =>
+    match parkAdd s.cfg s.park d cur with
+    | .ok q => { s with park := q }
+    | .error _ => failMove s d.id true) s
+
+/-- Take what can be promoted out of parked (contiguous nonces from `target`, covered by what the
+    ready queue leaves of `bal`) and add it to the ready queue. -/
+def promoteReady (s : State) (a cur : Nat) (bal : Bal) (inMaint : Bool) (target : Nat) : State :=
+  let pr := findPromotables s.park a target (remain (acctQ a s.pend) bal)
+  promoteAll { s with park := pr.2 } pr.1 cur bal inMaint
+
+/-! ### `MempoolInner::insert` -/
+
+inductive Out where
+  | pending | parked | err (e : InsErr) | done
+  deriving DecidableEq, Repr, Inhabited
+
+/-- ghost: the account nonce shown by this call. -/
+def noteShown (s : State) (a cur : Nat) : State :=
+  { s with shown := fun x => if x = a then cur else s.shown x }
+
+/-- ghost: the id was accepted (again). -/
+def noteAccepted (s : State) (id : Nat) : State :=
+  { s with accepted := id :: s.accepted, acked := s.acked.filter (fun i => i != id) }
+
+/-- ghost: the balances against which the account's ready queue was just validated. -/
+def noteBal (s : State) (a : Nat) (bal : Bal) : State :=
+  { s with vbal := fun x => if x = a then bal else s.vbal x }
+
+def insertTx (s0 : State) (t0 : Tx) (cur : Nat) (bal : Bal) : State × Out :=
+  let t := { t0 with seen := s0.now }
+  let s := noteShown s0 t.acct cur
+  match pendAdd s.pend t cur bal with
+  | .error .nonceGap | .error .balanceTooLow =>
+    match parkAdd s.cfg s.park t cur with
+    | .ok park' => (track (noteAccepted { s with park := park' } t.id) t.id, .parked)
+    | .error e => (s, .err e)
+  | .error e => (s, .err e)
+  | .ok pend' =>
+    let s := noteBal (noteAccepted { s with pend := pend' } t.id) t.acct bal
+    (track (promoteReady s t.acct cur bal false (t.nonce + 1)) t.id, .pending)
+
+/-! ### `MempoolInner::run_maintenance` -/
+
+/-- First half of the body of the `for address_bytes in &addresses` loop: clean stale/expired,
+    re-cost, split off what the balances no longer cover.
+    Returns (state, demoted transactions, removed ids with reasons). -/
+def maintainPrep (c : Chain) (recost : Bool) (results : List (Nat × Nat)) (height : Nat)
+    (s : State) (a : Nat) : State × List Tx × List (Nat × Reason) :=
+  let cp := cleanAcct s.pend a (c.nonce a) results height s.now s.cfg.ttl
+  let ck := cleanAcct s.park a (c.nonce a) results height s.now s.cfg.ttl
+  let dm := findDemotables (if recost then recostAcct c a cp.1 else cp.1) a (c.bal a)
+  ({ s with pend := dm.2, park := if recost then recostAcct c a ck.1 else ck.1,
+            shown := fun x => if x = a then c.nonce a else s.shown x,
+            vbal := fun x => if x = a then c.bal a else s.vbal x },
+   dm.1, cp.2 ++ ck.2)
+
+/-- Second half: demote what was split off, or (nothing to demote) promote from parked. -/
+def maintainMove (c : Chain) (s : State) (a : Nat) (dems : List Tx) : State :=
+  if dems.isEmpty then
+    promoteReady s a (c.nonce a) (c.bal a) true ((pendingNonce s.pend a).getD (c.nonce a))
+  else demoteAll s dems (c.nonce a)
+
+/-- The body of the `for address_bytes in &addresses` loop. -/
+def maintainAcct (c : Chain) (recost : Bool) (results : List (Nat × Nat)) (height : Nat)
+    (acc : State × List (Nat × Reason)) (a : Nat) : State × List (Nat × Reason) :=
+  let p := maintainPrep c recost results height acc.1 a
+  (maintainMove c p.1 a p.2.1, acc.2 ++ p.2.2)
+
+/-- `RecentExecutionResults::clean_stale`. -/
+def resultsClean (s : State) : State :=
+  let stale := s.resQ.takeWhile (fun e => s.now - e.2 > s.cfg.retention)
+  { s with resQ := s.resQ.drop stale.length,
+           res := s.res.filter (fun e => !(stale.any (fun x => x.1 == e.1))) }
+
+/-- One iteration of the loop in `RecentExecutionResults::add`; `none` = the early `return`. -/
+def resultsAddOne (s : State) (id code height : Nat) : Option State :=
+  if s.cfg.resultsMax = 0 then none
+  else
+    let k := if s.resQ.length ≥ s.cfg.resultsMax then s.resQ.length + 1 - s.cfg.resultsMax else 0
+    let popped := s.resQ.take k
+    let s := { s with resQ := s.resQ.drop k,
+                      res := s.res.filter (fun e => !(popped.any (fun x => x.1 == e.1))) }
+    if s.res.any (fun e => e.1 == id) then
+      some { s with res := s.res.map (fun e => if e.1 == id then (id, height, code) else e) }
+    else
+      some { s with res := (id, height, code) :: s.res, resQ := s.resQ ++ [(id, s.now)] }
+
+def resultsAdd (s : State) (batch : List (Nat × Nat)) (height : Nat) : State :=
+  let rec go (s : State) : List (Nat × Nat) → State
+    | [] => s
+    | (id, code) :: r =>
+      match resultsAddOne s id code height with
+      | none => s
+      | some s' => go s' r
+  go (resultsClean s) batch
+
+/-- `run_maintenance`; `order` is the iteration order of the address `HashSet`. -/
+def maintain (s0 : State) (c : Chain) (recost : Bool) (results : List (Nat × Nat)) (height : Nat)
+    (order : List Nat) : State :=
+  let acc := order.foldl (maintainAcct c recost results height) (s0, [])
+  let s := acc.2.foldl (fun s e => cacheAdd (untrack s e.1) e.1 e.2) acc.1
+  resultsAdd s results height
+
+/-! ### operations -/
+
+inductive Op where
+  | insert (t : Tx) (cur : Nat) (bal : Bal)
+  | removeInvalid (acct nonce id : Nat) (reason : Reason)
+  | uncache (id : Nat)
+  | maintain (c : Chain) (recost : Bool) (results : List (Nat × Nat)) (height : Nat)
+      (order : List Nat)
+  | advance (dt : Nat)
+
+def step (s : State) : Op → State × Out
+  | .insert t cur bal => insertTx s t cur bal
+  | .removeInvalid a n id r => (removeInvalid s a n id r, .done)
+  | .uncache id =>
+    ({ s with cache := s.cache.filter (fun e => e.1 != id),
+              acked := if s.cache.any (fun e => e.1 == id) then id :: s.acked else s.acked }, .done)
+  | .maintain c recost results height order => (maintain s c recost results height order, .done)
+  | .advance dt => ({ s with now := s.now + dt }, .done)
+
+def run (s : State) : List Op → State
+  | [] => s
+  | op :: r => run (step s op).1 r
+
+/-- The accounts `run_maintenance` iterates over. -/
+def addresses (s : State) : List Nat := ((s.pend ++ s.park).map (·.acct)).eraseDups
+
+/-! ### queries -/
+
+/-- Position of a queue entry in the block-building order (`TransactionPriority`, reversed):
+    higher group first, then smaller nonce difference, then earlier first-seen time
+    (ties beyond that are unspecified in the Rust — `sort_unstable`; the model breaks them by id). -/
+def prioLe (x y : Tx × Nat) : Bool :=
+  x.1.group > y.1.group ||
+  (x.1.group == y.1.group &&
+    (x.2 < y.2 ||
+     (x.2 == y.2 &&
+       (x.1.seen < y.1.seen || (x.1.seen == y.1.seen && x.1.id ≤ y.1.id)))))
+
+def insSorted (x : Tx × Nat) : List (Tx × Nat) → List (Tx × Nat)
+  | [] => [x]
+  | y :: ys => if prioLe x y then x :: y :: ys else y :: insSorted x ys
+
+def insSort : List (Tx × Nat) → List (Tx × Nat)
+  | [] => []
+  | x :: xs => insSorted x (insSort xs)
+
+/-- `current_account_nonce()` of the account's pending map: its lowest nonce. -/
+def firstNonce (pend : List Tx) (a : Nat) : Option Nat := ((acctQ a pend).head?).map (·.nonce)
+
+/-- Queue entries with their nonce difference (`TimemarkedTransaction::priority`; an entry whose
+    nonce is below the account's lowest pending nonce would be skipped — impossible). -/
+def queueEntries (pend : List Tx) : List (Tx × Nat) :=
+  pend.filterMap (fun t =>
+    match firstNonce pend t.acct with
+    | none => none
+    | some f => if t.nonce < f then none else some (t, t.nonce - f))
+
+/-- `builder_queue`. -/
+def builderQueue (s : State) : List Tx := (insSort (queueEntries s.pend)).map (·.1)
+
+inductive Status where
+  | pending | parked | removed (r : Reason)
+  deriving DecidableEq, Repr
+
+/-- `transaction_status`. -/
+def status (s : State) (id : Nat) : Option Status :=
+  if s.contained.contains id then
+    if s.pend.any (fun t => t.id == id) then some .pending else some .parked
+  else
+    match s.res.lookup id with
+    | some (h, c) => some (.removed (.included h c))
+    | none => (s.cache.lookup id).map .removed
+
+def len (s : State) : Nat := s.contained.length
+
+def init (cfg : Cfg) : State := { cfg := cfg }
 
 end Astria.Mempool
